@@ -49,7 +49,7 @@ def gen(rnd, zone, tier):
     nows += [int(D.datetime(y, m, d, 12, 0, tzinfo=tz).timestamp()) for (y, m, d) in [(2023, 12, 31), (2024, 2, 29), (2025, 1, 1)]]
     edges = edge_days()
     nows += [int(D.datetime(y, m, d, rnd.randrange(24), rnd.randrange(60), tzinfo=tz).timestamp())
-             for (y, m, d) in (rnd.sample(edges, 4) if tier == "quick" else edges)]
+             for (y, m, d) in rnd.sample(edges, 4 if tier == "quick" else 24)]
     nows += world.interesting_instants(rnd, zone, 3 if tier == "quick" else 14)
     if not world.has_rule_after_table(zone):          # 2038 .. 2106, where the zone's table (the model's input) still says everything
         nows += [rnd.randrange(2 ** 31, 2 ** 32 - 2 * 86400) for _ in range(2 if tier == "quick" else 8)] + [2 ** 31 + rnd.randrange(-40000, 40000)]
